@@ -53,7 +53,7 @@ EffLast(r) ==
     THEN LET l0 == IF r.ls = -1 \/ r.ls < r.lc THEN r.lc ELSE r.ls
          IN  IF r.k = "every" THEN (l0 \div r.e) * r.e ELSE l0
     ELSE r.last
-OpOf(r) == IF r.t = "S" THEN SchedOp(r.id, [k |-> r.k, e |-> r.e, o |-> r.o], EffLast(r)) ELSE RelOp(r.id)
+OpOf(r) == IF r.t = "S" THEN SchedOp(r.id, [k |-> r.k, e |-> r.e, o |-> r.o, end |-> r.end], EffLast(r)) ELSE RelOp(r.id)
 
 TrCall ==
     /\ IsEv("Call") /\ pend = NoOp
@@ -61,14 +61,21 @@ TrCall ==
     /\ UNCHANGED <<now, queue, nextTime, implvars, wk, wof, napi, ghostvars>>
 
 Done(op) == [op EXCEPT !.t = "done"]
+Failed(op) == [op EXCEPT !.t = "failed"]
 TrApiDo ==
     /\ pend.t \in {"S", "R"}
-    /\ pend' = Done(pend)
-    /\ IF pend.t = "S" THEN SchedCore(pend.id, pend.c, pend.last) ELSE RelCore(pend.id)
+    /\ IF SchedFails(pend)
+       THEN \* no occurrence after lastScheduled: Schedule returns an error, nothing changes
+            /\ pend' = Failed(pend)
+            /\ UNCHANGED <<queue, nextTime, wk, active, expNext, lastCk>>
+       ELSE /\ pend' = Done(pend)
+            /\ IF pend.t = "S" THEN SchedCore(pend.id, pend.c, pend.last) ELSE RelCore(pend.id)
     /\ UNCHANGED <<now, implvars, wof, napi, ran, ckAll, bad, l>>
 
 TrRet ==
-    /\ IsEv("Ret") /\ pend.t = "done" /\ Ln.err = ""
+    /\ IsEv("Ret")
+    /\ \/ pend.t = "done" /\ Ln.err = ""
+       \/ pend.t = "failed" /\ Ln.err # ""
     /\ pend' = NoOp
     /\ UNCHANGED <<now, queue, nextTime, implvars, wk, wof, napi, ghostvars>>
 
@@ -87,7 +94,7 @@ TrDispatch ==
     /\ \E x \in queue :
          /\ x.when <= now /\ wk[wof[x.id]].st \in {"idle", "park"}
          /\ DispatchEffect({x})
-    /\ UNCHANGED <<now, implvars, wof, pend, napi, active, lastCk, ckAll, l>>
+    /\ UNCHANGED <<now, implvars, wof, pend, napi, lastCk, ckAll, l>>
 
 WorkerAt(st, id, occ) == { w \in Workers : wk[w].st = st /\ wk[w].it.id = id /\ wk[w].it.next = occ }
 
